@@ -28,6 +28,7 @@ def judgeFresh (fields : List String) : String :=
         ++ (if (xs2 = hitLbl ∧ up2 ≠ "0") ∨ (xs2 ≠ hitLbl ∧ up2 ≠ "1") then " TRIP label_lies" else "")
         ++ (if !isGH ∧ (xs1 ≠ "passed".toList ∨ xs2 ≠ "passed".toList) then " TRIP label_lies" else "")
         ++ (if !implStored ∧ method ≠ "HEAD".toList ∧ b1 = b2 then " TRIP unqualified_shared" else "")
+        ++ (if implStored ∧ L > Spec.C03.lifetime h then " TRIP lifetime_gt_declared" else "")
         ++ (if implStored ∧ !wraps ∧ (xs2 ≠ hitLbl ∨ (method ≠ "HEAD".toList ∧ b1 ≠ b2)) then " TRIP stored_not_served" else "")
       match Fresh.cfgOfFacts with
       | none => s!"nomodel{trip}"
